@@ -459,7 +459,9 @@ def guarded_map(fn: t.Callable[[t.Any], t.Any], items: t.Sequence[t.Any], per_it
         conn.send(batch + [("done", w)])
         conn.close()
 
-    todo: t.List[t.List[int]] = [list(range(w, n, nproc)) for w in range(nproc)]
+    # contiguous blocks: consecutive items are evaluated by the same worker process, in order (state the library
+    # carries across calls - caches, counters - is then exercised by neighbouring items)
+    todo: t.List[t.List[int]] = [list(range((w * n) // nproc, ((w + 1) * n) // nproc)) for w in range(nproc)]
     procs: t.List[t.Any] = [None] * nproc
     conns: t.List[t.Any] = [None] * nproc
 
